@@ -306,7 +306,11 @@ func clip(b []byte) []byte {
 func genCase(t *rapid.T) Case {
 	c := Case{Proto: rapid.SampledFrom([]string{"tcp", "udp"}).Draw(t, "proto")}
 	n := rapid.IntRange(1, 30).Draw(t, "nf")
-	if rapid.IntRange(0, 3).Draw(t, "small") > 0 {
+	maxVar := 700
+	switch small := rapid.IntRange(0, 15).Draw(t, "small"); {
+	case small == 0: // templates as wide as real flow exporters send (Antrea: about 60 to 100 fields)
+		n, maxVar = rapid.IntRange(60, 140).Draw(t, "nfw"), 20
+	case small > 4:
 		n = rapid.IntRange(1, 6).Draw(t, "nfs")
 	}
 	punk := rapid.SampledFrom([]int{0, 2, 5, 8, 10}).Draw(t, "punk")
@@ -324,7 +328,7 @@ func genCase(t *rapid.T) Case {
 	}
 	view := gen.View(c.Fields)
 	for k := rapid.IntRange(1, 5).Draw(t, "nrec"); k > 0; k-- {
-		c.Recs = append(c.Recs, gen.Record(t, view, 700))
+		c.Recs = append(c.Recs, gen.Record(t, view, maxVar))
 	}
 	return c
 }
